@@ -25,6 +25,9 @@ pub struct DefinitionLocation {
 pub enum DefinitionType {
     Filename(PathBuf),
     Symbol(SymbolIndex),
+    /// A symbol that was defined by code that is not part of the program (a branch that is not taken,
+    /// a macro that is never invoked). It does not exist in the symbol table.
+    Unassembled(usize),
 }
 
 impl DefinitionLocation {
@@ -125,6 +128,16 @@ impl Analysis {
         self.definitions.clear();
     }
 
+    /// The symbol is about to be removed from the symbol table (and its index may be used again):
+    /// its definition is kept, under a key of its own
+    pub fn detach_symbol(&mut self, nx: SymbolIndex) {
+        if let Some(definition) = self.definitions.remove(&DefinitionType::Symbol(nx)) {
+            let id = self.definitions.len();
+            let key = (id..).map(DefinitionType::Unassembled).find(|k| !self.definitions.contains_key(k));
+            self.definitions.insert(key.unwrap(), definition);
+        }
+    }
+
     pub fn get_or_create_definition_mut(&mut self, ty: DefinitionType) -> &mut Definition {
         match self.definitions.entry(ty) {
             Entry::Occupied(e) => {
@@ -207,7 +220,7 @@ impl Analysis {
                         DefinitionType::Filename(_) => {
                             definition.contains_usage(&self.tree, &path, pos)
                         }
-                        DefinitionType::Symbol(_) => definition.contains(&self.tree, &path, pos),
+                        _ => definition.contains(&self.tree, &path, pos),
                     }
             })
             .collect()
